@@ -759,6 +759,10 @@ inline ClassAdapter<PPL::PIP_Problem> pip_tree_adapter() {
   VX_MUT("set_pivot(MAX_COLUMN)", [](D& p, const D*) { p.set_control_parameter(D::PIVOT_ROW_STRATEGY_MAX_COLUMN); return std::string(); });
   VX_MUT("set_big_parameter_dimension(2)", [](D& p, const D*) { p.set_big_parameter_dimension(2); return std::string(); });
   VX_MUT("solve()+print", [](D& p, const D*) { return pip_tree_text(p); });
+  // incremental re-solve as ONE operation (the comparison of the look-ahead does not solve)
+  VX_MUT("add_constraint(m<=1)+solve()+print", [m](D& p, const D*) { p.add_constraint(m <= 1); return pip_tree_text(p); });
+  VX_MUT("add_constraint(2m>=n+1)+solve()+print", [n, m](D& p, const D*) { p.add_constraint(2 * m >= n + 1); return pip_tree_text(p); });
+  VX_MUT("add_constraint(i+j<=n)+solve()+print", [i, j, n](D& p, const D*) { p.add_constraint(i + j <= n); return pip_tree_text(p); });
   VX_MUT("solution() shape", [](D& p, const D*) { return pip_tree_shape(p.solution()); });
   VX_MUT("optimizing_solution() shape", [](D& p, const D*) { return pip_tree_shape(p.optimizing_solution()); });
   VX_MUT("is_satisfiable()", [](D& p, const D*) { return b2s(p.is_satisfiable()); });
